@@ -70,7 +70,7 @@ func (s scen) countCancels() int {
 			n++
 		}
 	}
-	if s.red == "cancel" || s.red == "cancel2" {
+	if s.red == "cancel" || s.red == "cancel2" || s.red == "read1cancel" {
 		n++
 	}
 	return n
@@ -152,6 +152,15 @@ func (s scen) run(r *vrt.Run) {
 		case "cancel2":
 			o.doCancel(cancel, errB, "err:errB")
 			o.doCancel(cancel, errA, "err:errA")
+			return
+		case "read1cancel":
+			// consume one value, then give up: the rest of the pipe is left unread
+			for v := range pipe {
+				vrt.Obs()
+				o.reduced[v.(int)]++
+				break
+			}
+			o.doCancel(cancel, errB, "err:errB")
 			return
 		case "first1":
 			for v := range pipe {
@@ -364,7 +373,7 @@ func (s scen) check(r *vrt.Run, o *obs, outcome string) {
 		case "panic":
 			nPanic++
 			allowed["panic:red-panic"] = true
-		case "cancel", "cancel2":
+		case "cancel", "cancel2", "read1cancel":
 			nCancel++
 			allowed["err:errB"] = true
 		}
@@ -540,6 +549,12 @@ func scenarios() []scen {
 	add(scen{entry: "MapReduce", workers: 2, mb: []string{"w1", "w1"}, red: "cancel", bound: hi})
 	add(scen{entry: "MapReduce", workers: 1, mb: []string{"w1"}, red: "cancel", bound: hi})
 	add(scen{entry: "MapReduce", workers: 2, mb: []string{"w1", "w1"}, red: "cancel2", bound: hi})
+	// a reducer that gives up early while more values are pending than the collector holds
+	add(scen{entry: "MapReduce", workers: 1, mb: []string{"w1", "w1", "w1"}, red: "cancel", bound: lo})
+	add(scen{entry: "MapReduce", workers: 1, mb: []string{"w2", "w2"}, red: "cancel", bound: lo})
+	add(scen{entry: "MapReduce", workers: 1, mb: []string{"w1", "w1", "w1"}, red: "read1cancel", bound: lo})
+	add(scen{entry: "MapReduce", workers: 2, mb: []string{"w2", "w2", "w1"}, red: "read1cancel", bound: lo})
+	add(scen{entry: "MapReduceVoid", workers: 1, mb: []string{"w1", "w1", "w1"}, red: "read1cancel", bound: lo})
 	add(scen{entry: "MapReduce", workers: 2, mb: []string{"w1", "cerrA"}, red: "cancel2", bound: lo})
 	add(scen{entry: "MapReduce", workers: 2, mb: []string{"cerrA", "w1"}, red: "first1", bound: hi})
 	add(scen{entry: "MapReduce", workers: 2, mb: []string{"w1", "cerrA", "w1"}, red: "first1", bound: lo})
